@@ -23,7 +23,8 @@ def sec7():
            "machine-read form: a `fixed` entry suppresses nothing (its replay runs as an ordinary regression and a recurrence is a",
            "VIOLATION); an `open` entry makes the check print `KNOWN-FINDING: …` while its directed replay still reproduces and exempts",
            "only failures that satisfy its trigger. F-numbers up to F35 are those of the round-0 reading; later ones were found by the",
-           "machinery (F36/F37 by the C19 slice, F51–F54 by C12/C13, F60–F63 by the C15 enumeration).\n",
+           "machinery (F36–F38 by the C19 slice, F51–F55 by C12/C13, F60–F63 by the C15 enumeration, F64/F65 by the cJSON slice, F66 by the",
+           "Startup slice, F67 by triaging a survivor of the mutation campaign of §14).\n",
            "| # | property | status | commit | what |", "|---|---|---|---|---|"]
     for e in sorted(d, key=fnum):
         out.append("| %s | %s | %s | %s | %s |" % (e["id"], e["property"], e["status"], ("`%s`" % e["commit"]) if e.get("commit") else "—",
@@ -46,11 +47,15 @@ def sec13():
         det = []
         for cid, r in v.get("checks", {}).items():
             det.append("%s: %s" % (cid, ("VIOLATION with failing input" if r.get("with_failing_input") else ("VIOLATION no-failing-input-found" if r.get("detected") else "missed"))))
+        if m.get("out_of_scope"):
+            det = ["outside what the properties state: " + m["out_of_scope"]]
         rows.append("| %s | %s | %s | %s | %s |" % (name, m.get("breaks_property", ""), (m.get("what_breaks") or m.get("title") or "")[:170].replace("|", "/").replace("\n", " "),
                                                    (m.get("needs_to_manifest") or "")[:150].replace("|", "/").replace("\n", " "), "; ".join(det)))
     out = ["## 13. Seeded changes and which checks catch them\n",
            "Fresh sub-agents were given only a property's text and their own scratch worktree (nothing from /verif) and asked for two",
-           "changes each that break the property while the project still compiles and its 251 tests pass, with a demonstration. Each",
+           "changes each that break the property while the project still compiles and its 251 tests pass, with a demonstration (round 1:",
+           "`Cxx-1/2`; round 2, `Cxx-r2-1/2`: harder ones — one pair of cooperating edits that are each harmless alone, and one change",
+           "that needs a particular order of events, fault, value or transport). Each",
            "change was confirmed independently (`tools/seedtest.py`: suite passes with the change, demonstration fails with it and passes",
            "without) and the checks were run against the changed tree (`VERIF_REPO=<worktree> ./check Cxx --tier quick`). Kept under",
            "`/verif/seeded/<id>-<n>/` (patch.diff, demonstration, meta.json with what was run). Misses on the first pass and what was",
